@@ -368,26 +368,35 @@ pub fn sub_str(
     starting_loc: f64,
     length: Option<f64>,
 ) -> Option<EvalResult> {
+    /// [fn:round](https://www.w3.org/TR/xpath-functions-31/#func-round) (half towards positive infinity)
+    fn xpath_round(x: f64) -> f64 {
+        (x + 0.5).floor()
+    }
     if starting_loc.is_nan() {
         return None;
     }
     let (lex, tag) = source;
-    let (s, e) = match length {
+    // https://www.w3.org/TR/xpath-functions-31/#func-substring :
+    // the characters at position p such that round(start) <= p < round(start) + round(length);
+    // positions are *characters* (not bytes), and the arithmetic is done on doubles
+    // (so that it can not overflow; -INF + INF is NaN, and no position qualifies)
+    let start = xpath_round(starting_loc);
+    let end = match length {
         Some(l) if l.is_nan() => return None,
-        None | Some(f64::INFINITY) => (
-            ((starting_loc.round() - 1.0) as usize).min(lex.len()),
-            lex.len(),
-        ),
-        Some(l) => {
-            let s_signed = starting_loc.round() as isize - 1;
-            let s = (s_signed.max(0) as usize).min(lex.len());
-            let e = ((s_signed + l.round() as isize).max(0) as usize)
-                .max(s)
-                .min(lex.len());
-            (s, e)
-        }
+        None => f64::INFINITY,
+        Some(l) => start + xpath_round(l),
     };
-    Some(EvalResult::from((Arc::from(&lex[s..e]), tag.cloned())))
+    #[allow(clippy::cast_precision_loss)]
+    let sub: String = lex
+        .chars()
+        .enumerate()
+        .filter(|(i, _)| {
+            let p = (i + 1) as f64;
+            start <= p && p < end
+        })
+        .map(|(_, c)| c)
+        .collect();
+    Some(EvalResult::from((Arc::from(sub), tag.cloned())))
 }
 
 pub fn str_len(string: &Arc<str>) -> EvalResult {
